@@ -25,6 +25,7 @@ type C09Params struct {
 	Late       []*CallSpec `json:"late"`       // started by tasks created together with the others, but parked until the failure is near
 	Pos        int         `json:"pos"`        // fail after this many envelopes were handed to the client's Read
 	WriteFails bool        `json:"write_fails"` // the write side fails too
+	WriteBlocks bool       `json:"write_blocks,omitempty"` // the write side neither fails nor accepts: from just before the failure on, writes block until their context ends (a peer that is gone behind a flow-controlled transport)
 	ErrKind    int         `json:"err_kind"`    // which error the failing Read reports (see InjectedErr)
 	Side       SideOpts    `json:"side"`        // interceptors / stats handlers (family c20.clientfail)
 }
@@ -35,6 +36,11 @@ func genC09(g *rand.Rand, tier string) any {
 	classU := g.IntN(2) == 0
 	if classU {
 		p.Links[0].Cap, p.Links[1].Cap = -1, -1
+	}
+	if g.IntN(5) == 0 {
+		p.WriteBlocks = true
+		p.Links[0].Cap = 0 // a write completes only when the peer takes it
+		classU = false
 	}
 	n := 1 + g.IntN(6)
 	id := 1
@@ -67,7 +73,7 @@ func genC09(g *rand.Rand, tier string) any {
 		p.Late = append(p.Late, c)
 	}
 	p.Pos = g.IntN(4*n + 3)
-	p.WriteFails = g.IntN(2) == 0
+	p.WriteFails = g.IntN(2) == 0 && !p.WriteBlocks
 	p.ErrKind = g.IntN(NumInjectedErrs)
 	return p
 }
@@ -123,6 +129,10 @@ func execC09(e *Env, pp any) {
 	// release the late callers: from here on the scheduler decides whether
 	// they start before, during (between the failure check and the
 	// registration) or after the failure
+	if p.WriteBlocks {
+		cout.Stall()
+		e.Note("fault.link.stall")
+	}
 	close(release)
 	k := e.sch.IntN(40)
 	for i := 0; i < k; i++ {
@@ -827,6 +837,11 @@ func execC11(e *Env, pp any) {
 		}
 	}
 	histMu.Unlock()
+	if p.Mode >= 2 {
+		// a stalled connection (known findings F48/F49) has envelopes pending that
+		// the wire rules would miss; they are judged in the other modes
+		return
+	}
 	checkWireLinks(e, sim, []*Link{net.CEnds[0].Out}, []*Link{net.CEnds[0].In}, false)
 }
 
